@@ -1651,7 +1651,11 @@ impl IQLEngine {
 
             // Create fresh CodeGenerator for each rule (avoids timely state issues)
             let mut codegen = CodeGenerator::new();
-            codegen.set_max_result_rows(self.max_result_rows);
+            // The row limit truncates the answer only: truncating an intermediate relation
+            // would change what later rules (negation, joins) derive from it
+            if execution_order.last() == Some(&i) {
+                codegen.set_max_result_rows(self.max_result_rows);
+            }
             // Set per-rule semiring type from boolean specialization
             let semiring = self
                 .semiring_annotations
